@@ -118,6 +118,11 @@ class Recorder(object):
         self.listeners = []       # monitors: fn(recorder, event, stepped nid)
         self.submit_cids = set()
         self.model_ok = True
+        self.cut = False
+        self.mevents_after_cut = 0
+
+    def total_events(self):
+        return len(self.mevents) + self.mevents_after_cut
 
     def _order(self, n):
         o = self.sim.nodes[n]
@@ -178,11 +183,20 @@ class Recorder(object):
         else:
             sim.apply(ev)
             mev = ev
-        self.mevents.append(mev)
-        st, ou = sim.observe()
-        self.digests.append(SIM.hnums(ou, SIM.hnums(st)))
-        if self.keep_obs:
-            self.observations.append((st, ou))
+        if not self.cut:
+            self.mevents.append(mev)
+            st, ou = sim.observe()
+            self.digests.append(SIM.hnums(ou, SIM.hnums(st)))
+            if self.keep_obs:
+                self.observations.append((st, ou))
+            n = sim.step_nid
+            if n is not None and n in sim.nodes and len(sim.nodes[n]._SyncObj__raftLog) == 0:
+                # a node whose log became empty raises IndexError from then on at places the model totalises;
+                # this is only reachable after safety was already lost (known finding KF-C07-1): the trace is
+                # model-checked up to and including this step, the rest runs under the monitors only
+                self.cut = True
+        else:
+            self.mevents_after_cut += 1
         self.kinds[k] = self.kinds.get(k, 0) + 1
         for _s, _d, m in sim.sent:
             mk = 'msg:' + m['type'] + (':' + str(m.get('transmission')) if m.get('transmission') else '') + \
@@ -469,12 +483,12 @@ def random_trace(seed, n_events=200, workdir=None, keep_obs=False, cfg=None, lis
                     kill=rng.random() < 0.3, setver=rng.random() < 0.2)
     rec.opts = sch.opts
     sch.boot()
-    while len(rec.mevents) < n_events:
+    while rec.total_events() < n_events:
         mode = rng.random()
         if mode < 0.5:
             for _ in range(rng.randrange(1, 8)):
                 sch.calm_round()
-                if len(rec.mevents) >= n_events:
+                if rec.total_events() >= n_events:
                     break
         else:
             for _ in range(rng.randrange(1, 25)):
@@ -499,7 +513,7 @@ def ro_trace(seed, n_events=250, workdir=None, keep_obs=False, listeners=()):
     n_ro = rng.choice([1, 1, 2, 3])
     ros = [RO_BASE + i for i in range(n_ro)]
     sch.boot(ro=[r for r in ros if rng.random() < 0.6])
-    while len(rec.mevents) < n_events:
+    while rec.total_events() < n_events:
         r = rng.random()
         live_ro = [x for x in ros if x in sch.alive]
         if r < 0.05:
@@ -538,6 +552,11 @@ def member_trace(seed, n_events=300, workdir=None, keep_obs=False, listeners=())
     cfg = default_cfg(rng, voters)
     cfg['dyn'] = True
     cfg['queue'] = 1000
+    if not cfg.get('use_batch', True):
+        # unbatched mode sends inside _checkCommandsToApply, i.e. after a membership entry may have changed the member
+        # set in the same tick; the iteration order of the new set is not among the recorded oracle inputs, and it only
+        # matters when the send loop is cut by the clock: keep the loops short there
+        cfg['chunk'] = 65536
     rec = Recorder(cfg, workdir)
     rec.keep_obs = keep_obs
     mon = None
@@ -555,7 +574,7 @@ def member_trace(seed, n_events=300, workdir=None, keep_obs=False, listeners=())
     members = set(voters)           # the operator's view: adds requested and not yet known removed
     removed = set()
     seen_rem = set()
-    while len(rec.mevents) < n_events:
+    while rec.total_events() < n_events:
         # operator reaction: removal applied somewhere => that process is shut down
         for idx, cmdb in list(mon.cmd_at.items()):
             if idx in seen_rem:
@@ -634,7 +653,7 @@ def journal_trace(seed, n_events=300, workdir=None, keep_obs=False, listeners=()
     sch.opts = dict(kill=True, big=rng.random() < 0.2)
     rec.opts = sch.opts
     sch.boot()
-    while len(rec.mevents) < n_events:
+    while rec.total_events() < n_events:
         r = rng.random()
         live = sorted(sch.alive)
         dead = [x for x in voters if x not in sch.alive]
@@ -690,7 +709,7 @@ def killpoint_trace(seed, n_events=300, workdir=None, keep_obs=False, listeners=
             if sch.view(x, n):
                 rec.do(('drop', x, n))
 
-    while len(rec.mevents) < n_events:
+    while rec.total_events() < n_events:
         r = rng.random()
         live = sorted(sch.alive)
         dead = [x for x in voters if x not in sch.alive]
@@ -786,7 +805,7 @@ def converge_trace(seed, n_events=200, workdir=None, keep_obs=False, listeners=(
     rec.opts = sch.opts
     ros = [RO_BASE + i for i in range(rng.choice([0, 0, 1, 2]))]
     sch.boot(ro=ros)
-    while len(rec.mevents) < n_events:
+    while rec.total_events() < n_events:
         if rng.random() < 0.4:
             for _ in range(rng.randrange(1, 6)):
                 sch.calm_round()
